@@ -166,7 +166,7 @@ V reverse_purge_hash_map<K, V, H, E, A>::get(const K& key) const {
   const uint32_t mask = (1 << lg_cur_size_) - 1;
   uint32_t probe = fmix64(H()(key)) & mask;
   while (is_active(probe)) {
-    if (E()(keys_[probe], key)) return values_[probe];
+    if (equal_(keys_[probe], key)) return values_[probe];
     probe = (probe + 1) & mask;
   }
   return 0;
@@ -281,7 +281,7 @@ uint32_t reverse_purge_hash_map<K, V, H, E, A>::internal_adjust_or_insert(const 
   uint32_t index = fmix64(H()(key)) & mask;
   uint16_t drift = 1;
   while (is_active(index)) {
-    if (E()(keys_[index], key)) {
+    if (equal_(keys_[index], key)) {
       // adjusting the value of an existing key
       values_[index] += value;
       return index;
